@@ -1,6 +1,6 @@
 (* C02 - snv and NdelK mutators emit exactly the documented set of mutations.
    Only statements, closed by `exact`, and their assumptions. *)
-From VV Require Import Model.Base Model.Pattern Spec.PatternSpec Proofs.PatternProofs.
+From VV Require Import Model.Base Model.Pattern Spec.PatternSpec Proofs.PatternProofs Generated.KernelsPattern Proofs.KernelPatternEquiv.
 
 (* window starts are exactly start + OFFSET + k*SPAN for the k whose window fits in the region *)
 Theorem C02_window_starts_exact : forall offset span start L x,
@@ -40,9 +40,20 @@ Example C02_readme_2del1 :
   Ok [mkVar 11 (d "CG") []; mkVar 13 (d "TA") []; mkVar 15 (d "AA") []].
 Proof. vm_compute. reflexivity. Qed.
 
+(* translation validation: IntPatternBuilder.build and UIntRange.from_length, translated from the source on every run, are the
+   model's `build` and window ranges for all inputs *)
+Theorem C02_build_matches_source : forall offset span start len,
+  k_pattern_build (mkPt offset span) start len = Ok (build offset span start len).
+Proof. exact k_pattern_build_eq. Qed.
+Theorem C02_window_range_matches_source : forall start len, 0 <= start -> 1 <= len ->
+  k_range_from_length start len = Ok (mkRange start (start + len - 1)).
+Proof. exact k_range_from_length_spec. Qed.
+
 Print Assumptions C02_window_starts_exact.
 Print Assumptions C02_del_rows_exact.
 Print Assumptions C02_del_total.
 Print Assumptions C02_del_in_region.
 Print Assumptions C02_snv_rows_exact.
 Print Assumptions C02_snv_rows_NoDup.
+Print Assumptions C02_build_matches_source.
+Print Assumptions C02_window_range_matches_source.
